@@ -149,7 +149,10 @@ class MarkupMachine(Machine):
     def _convert_states_and_transitions(self, root):
         state = getattr(self, 'scoped', self)
         if state.initial:
-            root['initial'] = state.initial
+            if isinstance(state.initial, list):
+                root['initial'] = [i.name if isinstance(i, Enum) else i for i in state.initial]
+            else:
+                root['initial'] = state.initial.name if isinstance(state.initial, Enum) else state.initial
         if state == self and state.name:
             root['name'] = self.name[:-2]
         self._convert_transitions(root)
